@@ -765,6 +765,8 @@ _old_build_jobs5 = build_jobs
 
 def build_jobs(prop, tier):
     J = _old_build_jobs5(prop, tier)
-    if prop in ("C04", "C05"):
+    if prop == "C04":
         J = [mc_fasta_machine(tier), mc_fastq_machine(tier)] + J + [MachineDriftJob("fasta", tier), MachineDriftJob("fastq", tier)]
+    elif prop == "C05":
+        J = [mc_fasta_machine(tier), mc_fastq_machine(tier)] + J
     return J
